@@ -29,7 +29,7 @@ def corpus() -> List[Tuple[str, str]]:
     own = os.path.join(VERIF_DIR, "protos")
     inputs = os.path.join(REPO_DIR, "tests", "inputs")
     out = [("cardinal", os.path.join(own, "cardinal")), ("xpkg", os.path.join(own, "xpkg")),
-           ("shared", os.path.join(own, "shared"))]
+           ("shared", os.path.join(own, "shared")), ("nopkg", os.path.join(own, "nopkg"))]
     for name in ("service", "service_separate_packages", "service_uppercase", "example_service",
                  "googletypes_request", "googletypes_response", "googletypes_response_embedded",
                  "googletypes_service_returns_empty", "googletypes_service_returns_googletype",
